@@ -2824,3 +2824,89 @@ func refreshWorkerRules(c *an.Ctx, rule string) {
 		},
 	})
 }
+
+// sharedReplaceNotAccumulate is the rule for setters that replace a list: in a
+// method named Update*/Set*/Reset*/Replace* of the given packages, a slice
+// field of the receiver must not be stored as append(<the same field>, ...)
+// unless the old contents are cut off first (field[:0]); such a store keeps
+// every entry of every earlier call (an allowlist that only grows, a rule set
+// that never forgets).  Returns the number of slice-field stores examined.
+func sharedReplaceNotAccumulate(c *an.Ctx, rule string, prefixes ...string) (examined int) {
+	for _, fn := range c.AllFns {
+		if fn.Blocks == nil || c.IsTestFile(fn.Pos()) || fn.Signature.Recv() == nil || fn.Parent() != nil {
+			continue
+		}
+		k := an.FnKey(fn)
+		in := false
+		for _, p := range prefixes {
+			if strings.HasPrefix(k, p) {
+				in = true
+			}
+		}
+		name := fn.Name()
+		if !in || !(strings.HasPrefix(name, "Update") || strings.HasPrefix(name, "Set") || strings.HasPrefix(name, "Reset") || strings.HasPrefix(name, "Replace") ||
+			strings.HasPrefix(name, "update") || strings.HasPrefix(name, "set") || strings.HasPrefix(name, "reset") || strings.HasPrefix(name, "replace")) {
+			continue
+		}
+		an.Instrs(fn, func(in ssa.Instruction) {
+			st, ok := in.(*ssa.Store)
+			if !ok {
+				return
+			}
+			if _, isSl := st.Val.Type().Underlying().(*types.Slice); !isSl {
+				return
+			}
+			typ, field, base, ok := an.FieldOf(st.Addr)
+			if !ok {
+				return
+			}
+			if bp, _ := an.AccessPath(base); bp != "p0" {
+				return
+			}
+			examined++
+			c.Analysed(k)
+			// does the stored value grow the old contents of the same field?
+			grows := false
+			seen := map[ssa.Value]bool{}
+			var walk func(v ssa.Value, cut bool)
+			walk = func(v ssa.Value, cut bool) {
+				if v == nil || seen[v] {
+					return
+				}
+				seen[v] = true
+				switch x := v.(type) {
+				case *ssa.Call:
+					if b, isB := x.Call.Value.(*ssa.Builtin); isB && b.Name() == "append" {
+						walk(x.Call.Args[0], cut)
+					}
+				case *ssa.Phi:
+					for _, e := range x.Edges {
+						walk(e, cut)
+					}
+				case *ssa.Slice:
+					if hk, isK := an.ConstInt(x.High); isK && hk == 0 {
+						cut = true
+					}
+					walk(x.X, cut)
+				case *ssa.UnOp:
+					if x.Op == token.MUL {
+						if t2, f2, b2, ok2 := an.FieldOf(x.X); ok2 && t2 == typ && f2 == field {
+							if bp2, _ := an.AccessPath(b2); bp2 == "p0" && !cut {
+								grows = true
+							}
+						}
+					}
+				}
+			}
+			if call, isCall := st.Val.(*ssa.Call); isCall {
+				if b, isB := call.Call.Value.(*ssa.Builtin); isB && b.Name() == "append" {
+					walk(call, false)
+				}
+			}
+			c.Check(!grows, rule, fmt.Sprintf("%s replaces %s.%s", k, typ, field), st.Pos(),
+				"the setter stores a new list (or re-uses the buffer after cutting it to length 0)",
+				fmt.Sprintf("%s appends to the previous contents of %s.%s: entries removed by a later update stay in effect for the life of the process", name, typ, field))
+		})
+	}
+	return examined
+}
